@@ -65,3 +65,4 @@ META = {
     "assumptions": ["|limbs| < 2^60 (the reference add/sub use checked +/-)", "the phase map is linear in the columns, so the phase-level statement for every secret is equivalent to the column-wise statement decided (reduction on paper, DESIGN C02-A2)"],
     "stubs": [],
 }
+THOROUGH_SAMPLE = 6
